@@ -423,7 +423,7 @@ void register_c06(std::vector<Profile>& v)
                    "file content is read through a fresh descriptor in the same scheduler step",
                    "cross-thread clause with a TSC logger involved is demanded only when the statement returned more than 3.4 us "
                    "(RdtscClock's accepted resync window) before the flush was invoked"};
-  p.quick_runs = 3000;
+  p.quick_runs = 24000;
   p.thorough_runs = 400000;
   v.push_back(p);
 }
